@@ -3,6 +3,7 @@
 // built with the same expected rate is fed the same events; its update()/getRate()/timeout() results are printed
 // next to what the check-up returns and reports.
 #include <iostream>
+#include <memory>
 #include <sstream>
 #include <string>
 #include <vector>
@@ -30,10 +31,17 @@ template<typename C>
 static void run(const std::vector<std::string> & t)
 {
   double expected = vh::rf(t[2]), eps = vh::rf(t[3]);
-  RateMonitoring mon(expected);
+  std::unique_ptr<RateMonitoring> monp(new RateMonitoring(expected));
   C chk("x", expected, eps);
   std::cout << "I " << show(chk.getReport());
   for (size_t i = 4; i < t.size(); ++i) {
+    if (t.size() % 4 == 1 && i == 4 + (t.size() - 4) / 2) {
+      // RateMonitoring is copy-constructible (user-written copy constructor): half-way through, the history continues on a
+      // copy and the original is destroyed — the copy must carry the whole state
+      std::unique_ptr<RateMonitoring> cp(new RateMonitoring(*monp));
+      monp = std::move(cp);
+    }
+    RateMonitoring & mon = *monp;
     Duration stamp = durationFromNanoSecond(vh::ri(t[i].substr(2)));
     if (t[i][0] == 'D') {
       double rate = mon.update(stamp);
